@@ -52,7 +52,7 @@ def cases(tier, seed):
     for L in LMAXES:
         for dim in (3, 2):
             add('rot-table', L, dim=dim, nmat=(3 if tier == 'quick' else 8))
-    nops = 40 if tier == 'quick' else 500
+    nops = 40 if tier == 'quick' else 1200
     for i in range(nops):
         L = 4 if i % 2 == 0 else (2, 3, 5, 6)[(i // 2) % 4]
         add('ops', L, trials=(6 if tier == 'quick' else 10))
